@@ -45,11 +45,11 @@ Proof.
     rewrite E. exact Hlb.
 Qed.
 
-Definition ex_final : state := exec_from init ex_fair_sched (length ex_fair_sched).
-
-Lemma ex_final_quiet : forall t, t <= 2 -> ~ can_progress 2 ex_parent ex_final t.
+Lemma ex_final_quiet : forall t i, t <= 2 -> length ex_fair_sched <= i ->
+  ~ can_progress 2 ex_parent (ex_fair_exec i) t.
 Proof.
-  intros t Ht (a & s' & H & Hn).
+  intros t i Ht Hi (a & s' & H & Hn). unfold ex_fair_exec in H.
+  rewrite (exec_from_ge _ _ i Hi) in H.
   assert (t = 0 \/ t = 1 \/ t = 2) as [-> | [-> | ->]] by lia;
     destruct a; vm_compute in H; discriminate.
 Qed.
@@ -67,7 +67,7 @@ Proof.
       rewrite (exec_from_ge _ _ i Hi), (exec_from_ge _ _ (S i)) by lia.
       vm_compute. reflexivity.
   - intros t i Ht. exists (i + length ex_fair_sched). split; [lia|]. left.
-    unfold ex_fair_exec. rewrite exec_from_ge by lia. apply ex_final_quiet; auto.
+    apply (ex_final_quiet t (i + length ex_fair_sched) Ht). lia.
   - vm_compute. reflexivity.
   - vm_compute. reflexivity.
 Qed.
